@@ -70,6 +70,9 @@ package decor
 //@   modifies nothing
 //@   ensures  result != nil
 
+//@ iface ShutdownListener.OnShutdown
+//@   modifies pkgstate("decor")
+
 //@ iface Synchronizer.Sync
 //@   modifies nothing
 
